@@ -188,8 +188,52 @@ def all_statements(fn):
     return res
 
 
+_EXTRACT_RE = re.compile(r"^let\s+(?:mut\s+)?([A-Za-z_][A-Za-z0-9_]*)\s*(?::[^=]*)?=\s*(?:ast::)?(?:extract_target_from_node|extract_targets_from_node|walk_node_for_targets)\s*\(", re.S)
+
+
+def role_names(fn):
+    """Names that the contract tables refer to by ROLE instead of by spelling, so that renaming a local
+    does not lose the anchors:  $ret = the identifier returned at the end of the function,
+    $x0, $x1, ... = the variables bound (in source order) by `let v = extract_target(s)_from_node(..)`."""
+    ts = fn.toks
+    names = {}
+    t = ts[fn.body_close - 1]
+    if t.kind == "ident":
+        names["$ret"] = t.text
+    elif t.text == ";" and ts[fn.body_close - 2].kind == "ident" and ts[fn.body_close - 3].text == "return":
+        names["$ret"] = ts[fn.body_close - 2].text
+    k = 0
+    stmts = {}
+    for (x, y) in all_statements(fn):
+        text = fn.src[ts[x].start:ts[y].end]
+        m = _EXTRACT_RE.match(text)
+        if m and (x, y) not in stmts:
+            names["$x%d" % k] = m.group(1)
+            stmts["@x%d" % k] = (x, y)
+            k += 1
+    return names, stmts
+
+
+def _subst(obj, names):
+    if isinstance(obj, str):
+        for k in sorted(names, key=len, reverse=True):
+            obj = obj.replace(k, names[k])
+        return obj
+    if isinstance(obj, list):
+        return [_subst(o, names) for o in obj]
+    if isinstance(obj, dict):
+        return {k: _subst(v, names) for k, v in obj.items()}
+    return obj
+
+
 def annotate_fn(sp, fn, spec, obligations, prefix):
     ts = fn.toks
+    names, bind_stmts = role_names(fn)
+    need = set(re.findall(r"\$(?:ret|x\d+)", repr(spec)))
+    missing = [n for n in need if n not in names]
+    if missing:
+        raise C.LostAnchor("%s: cannot resolve %s (no such extract binding / tail identifier)" % (fn.name, ", ".join(sorted(missing))))
+    spec = _subst(spec, names)
     for a in spec.get("attrs", []):
         U.add_attr(sp, a, "attr:" + a.strip("#[]").split("::")[-1])
     if spec.get("contract"):
@@ -282,6 +326,10 @@ def annotate_fn(sp, fn, spec, obligations, prefix):
         stmts = all_statements(fn)
         for a in spec["after"]:
             n = a.get("nth", 0)
+            if a["match"] in bind_stmts:
+                hit = bind_stmts[a["match"]]
+                sp.after_tok(ts[hit[1]], "\n" + a["text"].strip() + "\n", "ghost:after-stmt")
+                continue
             ms = []
             for (x, y) in stmts:
                 text = fn.src[ts[x].start:ts[y].end]
